@@ -146,6 +146,79 @@ MUTANTS = {
 """,
         "then/else bodies exchanged when the then body has more than three nodes",
     ),
+    # --- subtler ones (aimed at passing the repository's own suite)
+    "S1-hoist-one-scope-too-far": (
+        "src/spox/_build.py",
+        """            self.scope_tree.scope_of[node] = self.scope_tree.lca(
+                graph, self.scope_tree.scope_of[node]
+            )
+""",
+        """            cur = self.scope_tree.scope_of[node]
+            self.scope_tree.scope_of[node] = (
+                cur if cur is graph else self.scope_tree.lca(graph, self.scope_tree.parent(cur))
+            )
+""",
+        "relaxation goes through the parent of the current scope (a value re-met from a deeper scope is hoisted one scope too far)",
+    ),
+    "S2-results-miswired-from-5th": (
+        "src/spox/_internal_op.py",
+        """                    [scope.var[self.inputs.inputs[i]]],
+""",
+        """                    [scope.var[self.inputs.inputs[i if i < 3 else len(self.inputs.inputs) + 2 - i]]],
+""",
+        "graph results wired to the wrong value from the 4th result on",
+    ),
+    "S3-three-output-split-last-two-swapped": (
+        "src/spox/_node.py",
+        """        while len(input_names) > self.min_input and not input_names[-1]:
+""",
+        """        if len(output_names) == 3 and self.op_type.identifier == "Split":
+            output_names[1], output_names[2] = output_names[2], output_names[1]
+        while len(input_names) > self.min_input and not input_names[-1]:
+""",
+        "last two outputs of a three-output Split exchanged",
+    ),
+    "S4-input-names-assigned-in-sorted-order": (
+        "src/spox/_public.py",
+        """        for name, arg in kwargs.items():
+            pre[arg] = arg._name
+""",
+        """        for name, arg in zip(sorted(kwargs), kwargs.values()):
+            pre[arg] = arg._name
+""",
+        "_temporary_renames pairs the sorted input names with the arguments in dict order",
+    ),
+    "S5-result-names-assigned-in-sorted-order": (
+        "src/spox/_build.py",
+        """        for key, var in zip(request_results, vars):
+""",
+        """        for key, var in zip(sorted(request_results), vars):
+""",
+        "main results renamed with the sorted output names",
+    ),
+    "S6-deep-body-initializers-dropped": (
+        "src/spox/_graph.py",
+        """        initializer_tensors = [
+            from_array(arr, name)
+            for name, arr in self._get_initializers_by_name().items()
+        ]
+""",
+        """        initializer_tensors = [
+            from_array(arr, name)
+            for name, arr in self._get_initializers_by_name().items()
+            if not self._name or self._name.count("__") < 1
+        ]
+""",
+        "initializers that ended up in a body nested two levels deep are not written out",
+    ),
+    "S7-subgraph-edges-followed-before-inputs-only-for-first-body": (
+        "src/spox/_build.py",
+        """                (self.source_of[sub] for sub in nd.subgraphs),
+""",
+        """                (self.source_of[sub] for sub in list(nd.subgraphs)[:1] if len(list(nd.dependencies)) < 3),
+""",
+        "DFS in resolve_scopes follows only the first body, and no body of nodes with >= 3 inputs",
+    ),
     # --- refactorings of the internals the harness observes, combined with a real breakage
     "R1-build_main-renamed+optional-dropped": (
         [
